@@ -234,6 +234,9 @@ DECLS = {
     'hyphens': ['manual', 'none', 'auto'],
     'text-transform': ['none', 'uppercase'],
     'list-style-position': ['outside', 'inside'],
+    # commit e161f80: `image` is the computing function of these three (lengths inside gradients; other values unchanged)
+    'list-style-image': ['none', 'url(x.png)', 'inherit'],
+    'border-image-source': ['none', 'url(y.png)'],
 }
 # keys read on every element whatever the declarations
 ALWAYS_KEYS = ['color', 'font_size', 'font_weight', 'width', 'text_indent', 'line_height', 'display', 'float',
@@ -592,7 +595,7 @@ def document_section(run):
         'the key is inherited')
     from weasyprint.css.properties import INHERITED
     done = 0
-    for _ in range(run.n(220, 4000)):
+    for _ in range(run.n(190, 4000)):
         doc = random_document(run.rng)
         try:
             html, style_for, pages, _, _ = run_pipeline(doc)
